@@ -39,7 +39,7 @@ ASSUMPTIONS = [
     "without keywords and inherits cc_arches, whereas PackageList.expand documents that situation as `-` (skip the line)",
 ]
 BOUNDS = {
-    "quick": "49 repositories (7x7 keyword sets on versions 1,2) x 66 single-line requests (6 specs x 11 keyword lists) + 16 repositories x 99 "
+    "quick": "49+6 repositories (7x7 keyword sets on versions 1,2, plus 6 where a version carries an arch missing from known_arches) x 66 single-line requests (6 specs x 11 keyword lists) + 16 repositories x 99 "
     "two-line requests = 4,818 (repository, request) cases x 32 option sets = 154k match_packages runs; suggested_keywords on every version",
     "thorough": "144 two-version + 125 three-version repositories x 84 single lines + 36 repositories x 196 two-line requests = 29,652 cases x 72 "
     "option sets = 2.1M match_packages runs",
@@ -61,6 +61,19 @@ KSETS = [
     ["-*", "~amd64"],
     ["~x86", "-amd64"],
     ["~amd64", "ppc"],
+    # "ppc" is not in known_arches (a stale/overlay arch): stable elsewhere / testing here, so that `*` would suggest it
+    ["amd64", "ppc"],
+    ["~amd64", "~ppc"],
+]
+UNK_A, UNK_B = ["amd64", "ppc"], ["~amd64", "~ppc"]
+# repositories in which `*` (stabilizing or keywording) is drawn towards the unknown arch
+UNKNOWN_ARCH_REPOS = [
+    [["1", UNK_A], ["2", UNK_B]],
+    [["1", UNK_B], ["2", UNK_A]],
+    [["1", UNK_A], ["2", ["~amd64"]]],
+    [["1", ["~amd64"]], ["2", UNK_A]],
+    [["1", UNK_A], ["2", []]],
+    [["1", ["ppc"]], ["2", ["~ppc", "~x86"]]],
 ]
 SPECS = ["=a/p-2", "=a/p-1", "a/p", "a/p:0", ">=a/p-1", "=a/p-2:0"]
 SPECS_T = SPECS + ["=a/p-9"]
@@ -84,11 +97,11 @@ def option_sets(tier):
 def repos(tier, small=False):
     if tier == "quick":
         ks = KSETS[:7] if not small else [KSETS[i] for i in (1, 3, 4, 6)]
-        return [[["1", a], ["2", b]] for a in ks for b in ks]
+        return [[["1", a], ["2", b]] for a in ks for b in ks] + (UNKNOWN_ARCH_REPOS[:2] if small else UNKNOWN_ARCH_REPOS)
     if small:
         ks = [KSETS[i] for i in (1, 3, 4, 6, 9, 11)]
-        return [[["1", a], ["2", b]] for a in ks for b in ks]
-    out = [[["1", a], ["2", b]] for a in KSETS for b in KSETS]
+        return [[["1", a], ["2", b]] for a in ks for b in ks] + UNKNOWN_ARCH_REPOS
+    out = [[["1", a], ["2", b]] for a in KSETS[:12] for b in KSETS[:12]] + UNKNOWN_ARCH_REPOS
     ks3 = [KSETS[i] for i in (0, 1, 4, 5, 6)]
     out += [[["1", a], ["2", b], ["3", c]] for a in ks3 for b in ks3 for c in ks3]
     return out
@@ -101,10 +114,10 @@ def single_lines(tier):
 
 def double_lines(tier):
     if tier == "quick":
-        first = [["=a/p-1", k] for k in ([], ["amd64"], ["~x86", "amd64"], ["*"], ["-"], ["x86-macos"], ["arm"])] + [["a/p", ["amd64"]], [">=a/p-1", ["x86"]]]
-        second = [["=a/p-2", k] for k in KWS]
+        first = [["=a/p-1", k] for k in ([], ["amd64"], ["~x86", "amd64"], ["*"], ["-"], ["x86-macos"], ["arm"])] + [["a/p", ["amd64"]], [">=a/p-1", ["x86"]], ["=a/p-2", ["*"]], ["a/p", ["*"]]]
+        second = [["=a/p-2", k] for k in KWS] + [["=a/p-1", ["^"]]]
     else:
-        first = [["=a/p-1", k] for k in KWS_T if k != ["^"]] + [["a/p", ["amd64"]], [">=a/p-1", ["x86"]], ["=a/p-2", ["*"]]]
+        first = [["=a/p-1", k] for k in KWS_T if k != ["^"]] + [["a/p", ["amd64"]], [">=a/p-1", ["x86"]], ["=a/p-2", ["*"]], ["a/p", ["*"]]]
         second = [["=a/p-2", k] for k in KWS_T] + [["a/p:0", ["^"]], ["=a/p-1", ["^"]]]
     return [[a, b] for a in first for b in second]
 
